@@ -275,8 +275,13 @@ def contention_case(draw, d):
             reqs['C'] = put_alloc(d, c2, {(rp, rc): amount_for(c2)}, v)
     elif kind == 'vs-delete':
         c = new_or_held(0)
+        what = draw(st.sampled_from(['provider', 'inventories', 'allocs',
+                                     'allocs-same']))
+        if what == 'allocs-same' and held:
+            # the PUT replaces the allocations of the very consumer whose
+            # allocations are being deleted (fresh row ids in between)
+            c = draw(st.sampled_from(held))
         reqs['A'] = put_alloc(d, c, {(rp, rc): amount_for(c)}, v)
-        what = draw(st.sampled_from(['provider', 'inventories', 'allocs']))
         if what == 'provider':
             reqs['B'] = gen.R('DELETE', '/resource_providers/' + rp, v, None,
                               'delete_rp', [], target=rp)
@@ -285,21 +290,14 @@ def contention_case(draw, d):
                               '/resource_providers/%s/inventories' % rp, v,
                               None, 'delete_inventories', [], target=rp)
         else:
-            # DELETE /allocations/{c} carries no consumer generation, so C07
-            # does not quantify over it racing a write of the SAME consumer
-            # (it deletes the rows it read; a PUT in between survives and both
-            # answer 2xx).  It is raced here only as a request that frees the
-            # capacity another consumer's claim is checked against.
-            others_held = [h for h in held if h != c]
-            if others_held:
-                tgt = draw(st.sampled_from(others_held))
-                reqs['B'] = gen.R('DELETE', '/allocations/' + tgt, v, None,
-                                  'delete_allocations', [], consumers=[tgt])
-            else:
-                reqs['B'] = gen.R('DELETE',
-                                  '/resource_providers/%s/inventories' % rp,
-                                  v, None, 'delete_inventories', [],
-                                  target=rp)
+            # DELETE /allocations/{c} carries no consumer generation: when it
+            # targets the consumer the PUT writes, C07's oracle demands the
+            # state invariants and 'errors have no effect' only, not serial
+            # equivalence (see c07.oracle)
+            tgt = c if what == 'allocs-same' else (
+                draw(st.sampled_from(held)) if held else c)
+            reqs['B'] = gen.R('DELETE', '/allocations/' + tgt, v, None,
+                              'delete_allocations', [], consumers=[tgt])
     elif kind == 'move-vs-put':
         if not held:
             c1 = free_cons[0]
